@@ -169,7 +169,7 @@ def rx(e, top=True):
             return ('-' + _num_text(-e.value)) if top else ('-' + _num_text(-e.value))
         return _num_text(e.value)
     if isinstance(e, Str):
-        return '"%s"' % e.s
+        return '"%s"' % e.s.replace('"', '\\"')
     if isinstance(e, (Var, Reg)):
         return e.name
     if isinstance(e, CallE):
@@ -288,7 +288,7 @@ def rs(s, ind=0):
     if isinstance(s, Print):
         return ('println' if s.ln else 'print') + ('' if s.e is None else ' ' + rx(s.e))
     if isinstance(s, Printf):
-        return 'printf "%s"' % s.fmt + ''.join(' ' + rx(a) for a in s.args)
+        return 'printf "%s"' % s.fmt.replace('"', '\\"') + ''.join(' ' + rx(a) for a in s.args)
     raise TypeError(s)
 
 
